@@ -119,8 +119,9 @@ Definition mon_C05 (b : base) (te : Z * ev) : list alarm :=
   | EPromote i tok gid =>
       let x := inst_of b i in
       when (negb (tok =? io_tok x)) 504 ++
-      match latest_by (b_hist b) (ic_key (cfg_of b i)) i with
-      | Some v => when (negb (tok_of b (ver_val v) =? tok)) 505
+      (* the record of this term: the version written by the acquisition the claim rests on *)
+      match find_ver (b_hist b) (ic_key (cfg_of b i)) (io_acq_rev x) with
+      | Some v => when (negb ((tok_of b (ver_val v) =? tok) && (ver_author v =? i))) 505
       | None => [505]
       end
   | EStatus i st il lid tok rev pl plid ptok =>
